@@ -14,7 +14,7 @@ if [ ! -x /verif/.cache/instr ] || [ /verif/sim/cmd/instr/main.go -nt /verif/.ca
   mkdir -p /verif/.cache
   go1.26.8 build -o /verif/.cache/instr ./cmd/instr || { echo "BUILD-ERROR instr" >&2; exit 2; }
 fi
-/verif/.cache/instr -repo /repo -out "$SCR" -verif /verif/sim/overlay || { echo "BUILD-ERROR instrumenter failed" >&2; exit 2; }
+/verif/.cache/instr -repo "${VERIF_REPO:-/repo}" -as /repo -out "$SCR" -verif /verif/sim/overlay || { echo "BUILD-ERROR instrumenter failed" >&2; exit 2; }
 cp "$SCR/instr_report.json" "$OUT/instr_report.json"
 go1.26.8 test -c -vet=off -tags verif -overlay "$SCR/overlay.json" -o "$OUT/sim.test" . 2> "$OUT/build.log" || { cat "$OUT/build.log" >&2; echo "BUILD-ERROR sim.test" >&2; exit 2; }
 if [ "${RACE:-0}" = "1" ]; then
